@@ -60,12 +60,19 @@ class Interrupter:
 
     def arm(self, k, exc):
         """Count function entries from now on; raise at the k-th (k=None: only count)."""
+        from . import sig
         self.count, self.k, self.exc, self.fired_at = 0, k, exc, None
         self.armed = True
+        sig.AFTER_CALL_HOOK = self._call_returned
         mon.set_events(TOOL, mon.events.PY_START)
         mon.restart_events()
 
+    def _call_returned(self):
+        self.armed = False
+
     def disarm(self):
+        from . import sig
+        sig.AFTER_CALL_HOOK = None
         self.armed = False
         mon.set_events(TOOL, 0)
         return self.count, self.fired_at
@@ -269,7 +276,7 @@ C20_TYPES = ["ListInt", "ListListInt", "DictStrListInt", "DDictStrListInt", "Set
              "ULM1LM2", "UDM1DM2", "SatModel", "SatOpt", "SatOpt", "SnakeCase"]
 C20_RECIPES = ["plain", "plain", "nm_extra_collect", "nm_extra_collect", "nm_omit_default", "nm_as_list", "nm_camel",
                "nm_extra_forbid", "validator_inner", "chain_node_children", "flag_names", "flag_names", "nm_saturator", "nm_saturator", "nm_paths", "nm_paths"]
-C20_CONV = ["CLinkStr","Outer", "OuterSame", "Inner", "InnerSame", "ListInner", "GIntGInt", "OptInner", "DictInner", "InnerTags", "M1M2",
+C20_CONV = ["CLinkStr", "ImplExtra", "ImplTags", "ImplTags","Outer", "OuterSame", "Inner", "InnerSame", "ListInner", "GIntGInt", "OptInner", "DictInner", "InnerTags", "M1M2",
             "CLink", "M1Str", "CTags", "CTags", "Ann", "Ann", "AnnList", "AnnDict"]
 
 
@@ -398,13 +405,12 @@ def _do(retort, d):
         return outcome(retort.get_dumper, pools.TYPES[d["t"]])
     if kind == "get_converter":
         src, dst, _ = pools.CONVERTERS[d["conv"]]
-        return outcome(ops._get_converter, retort, src, dst, d.get("rcp"), d.get("rcp_shared", False))
+        return outcome(ops._get_converter, retort, d["conv"], d.get("rcp"), d.get("rcp_shared", False))
     if kind == "convert":
-        return outcome(ops._convert, retort, pools.obj(d["o"]), pools.CONVERTERS[d["conv"]][1], d.get("rcp"),
-                       d.get("rcp_shared", False))
+        return outcome(ops._convert, retort, d["conv"], pools.obj(d["o"]), d.get("rcp"), d.get("rcp_shared", False))
     if kind == "convert_call":
         src, dst, _ = pools.CONVERTERS[d["conv"]]
-        out, fn = outcome(ops._get_converter, retort, src, dst, d.get("rcp"), d.get("rcp_shared", False))
+        out, fn = outcome(ops._get_converter, retort, d["conv"], d.get("rcp"), d.get("rcp_shared", False))
         return outcome(fn, pools.obj(d["o"])) if out[0] == "ok" else (out, None)
     raise ValueError(d)
 
